@@ -150,7 +150,7 @@ MStartSnake(m) ==
 \* When the loop has run out (d = d_max) no probe is made and the search gives up.
 MSnake(x, m, probe, exp) ==
   LET f == m.fm
-      fallback == <<Emit(f.lv, TDel(f.os, f.oe - f.os, f.ns)), Emit(f.lv, TIns(f.os, f.ns, f.ne - f.ns))>>
+      fallback == <<Emit(f.lv, TDel(f.os, f.oe - f.os, f.ns)), Emit(f.lv, TIns(f.oe, f.ns, f.ne - f.ns))>>
   IN IF f.d >= MaxD(f.oe - f.os, f.ne - f.ns)
      THEN [m EXCEPT !.fm = NOFM, !.stack = Push(m, fallback)]
      ELSE
